@@ -65,6 +65,7 @@ def parse_script(spec: Iterable[Any]) -> list[Outcome]:
 
 
 # ---- independent readers of what kopf persists on an object -------------------------------------
+DRS = '-ofDRS'     # suffix of kopf's annotation names on ReplicaSets owned by Deployments
 
 def progress_records(obj: dict | None, ids: Iterable[str]) -> dict[str, dict]:
     """Progress records of the given handler ids as persisted on `obj` (annotations or status)."""
@@ -75,6 +76,8 @@ def progress_records(obj: dict | None, ids: Iterable[str]) -> dict[str, dict]:
     stat = ((obj.get('status') or {}).get('kopf') or {}).get('progress') or {}
     for hid in ids:
         key = f"{PREFIX}/{hid.replace('/', '.')}"
+        if key not in anns and key + DRS in anns:
+            key = key + DRS      # a ReplicaSet owned by a Deployment (docs/continuity.rst: the records are kept apart from the Deployment's)
         if key in anns:
             try:
                 out[hid] = json.loads(anns[key])
@@ -90,7 +93,8 @@ def any_progress_keys(obj: dict | None) -> list[str]:
     if not obj:
         return []
     anns = (obj.get('metadata') or {}).get('annotations') or {}
-    keys = [k for k in anns if k.startswith(PREFIX + '/') and k not in (LAST_HANDLED, TOUCH)]
+    keys = [k for k in anns if k.startswith(PREFIX + '/') and k not in (LAST_HANDLED, TOUCH, LAST_HANDLED + DRS, TOUCH + DRS)
+            and not k.endswith('/kopf-managed')]
     stat = ((obj.get('status') or {}).get('kopf') or {}).get('progress') or {}
     return sorted(keys) + sorted(f'status:{k}' for k in stat)
 
@@ -104,6 +108,8 @@ def last_handled(obj: dict | None) -> dict | None:
         return None
     anns = (obj.get('metadata') or {}).get('annotations') or {}
     raw = anns.get(LAST_HANDLED)
+    if raw is None:
+        raw = anns.get(LAST_HANDLED + DRS)
     if raw is None:
         raw = ((obj.get('status') or {}).get('kopf') or {}).get('last-handled-configuration')
     return json.loads(raw) if raw is not None else None
@@ -152,6 +158,10 @@ class ChangeScenario(Scenario):
     def __init__(self, **params: Any) -> None:
         super().__init__(**params)
         self.kind = KEX_SUB if params.get('sub') else KEX
+        if params.get('rs'):
+            # a ReplicaSet owned by a Deployment: kopf keeps its records under differently named annotations there
+            from kv.world import REPLICASETS
+            self.kind = REPLICASETS
         self.kinds = [self.kind]
         self.horizon = params.get('horizon', self.horizon)
         self.grid = params.get('grid')
@@ -177,10 +187,7 @@ class ChangeScenario(Scenario):
             for k in ('errors',):
                 if isinstance(h.get(k), str):
                     h[k] = getattr(kopf.ErrorsMode, h[k])
-            if on == 'field':
-                deco('kopfexamples', id=hid, registry=reg, **h)(fn)
-            else:
-                deco('kopfexamples', id=hid, registry=reg, **h)(fn)
+            deco(self.kind.plural, id=hid, registry=reg, **h)(fn)
         return reg
 
     def _with_subs(self, env: Env, hid: str, fn: Any, subs: list[dict]) -> Any:
@@ -236,7 +243,10 @@ class ChangeScenario(Scenario):
         def do(env: Env) -> None:
             w = env.world
             if action == 'create':
-                w.create(K, 'ns', args[0], {'spec': dict(args[1]) if len(args) > 1 else {'x': 1}})
+                body: dict[str, Any] = {'spec': dict(args[1]) if len(args) > 1 else {'x': 1}}
+                if self.params.get('rs'):
+                    body['metadata'] = {'ownerReferences': [{'apiVersion': 'apps/v1', 'kind': 'Deployment', 'name': 'd', 'uid': 'dep-1', 'controller': True}]}
+                w.create(K, 'ns', args[0], body)
             elif action == 'createl':
                 w.create(K, 'ns', args[0], {'spec': {'x': 1}, 'metadata': {'labels': {args[1]: args[2]}}})
             elif action == 'createbare':
